@@ -1,6 +1,9 @@
 """C17 — prefix bindings stay a consistent two-way map and compact IRIs expand back.  DESIGN §6 C17.
 
-Case = {"cfg": "memory"|"simple"|"dataset", "bn": "none"|"core"|"rdflib", "bn1": …,
+Case = {"cfg": "memory"|"simple"|"dataset"|"foreign", "bn": "none"|"core"|"rdflib", "bn1": …,
+        ("foreign": the graph's namespace_manager belongs to a graph on ANOTHER store — "via": "ctor"
+         Graph(namespace_manager=…) | "setter" g.namespace_manager = …; "fstore"/"own": kinds of the manager's
+         store and of the graph's own store; listing, lookups and qname must all talk about the manager's store)
         "vp": [prefix…], "vn": [namespace…],         (vocabulary: keys whose lookups are observed)
         "ops": [op…]}
 op  = ["bind", m, prefix|None, ns, override, replace]   Graph.bind / NamespaceManager.bind
@@ -44,7 +47,8 @@ RULE = ("random histories (3-18 ops) of bind (override x replace, None/empty/und
         "overlapping namespaces), direct store.bind, qname/curie/compute_qname(_strict)/n3/expand_curie, reset, Turtle and "
         "RDF/XML parses that bind prefixes, Turtle/N3 serialisation that generates them (output re-parsed, @prefix table "
         "checked, `_x` vs `p_x` collisions generated); Memory, SimpleMemory and Dataset; one "
-        "or two managers on the store; bind_namespaces none/core/rdflib.  non-trivial = some bind met an already bound "
+        "or two managers on the store, and graphs that borrow the manager of a graph on another store (constructor argument "
+        "or setter); bind_namespaces none/core/rdflib.  non-trivial = some bind met an already bound "
         "prefix or namespace and a later qname-family call returned a prefixed name; distinct = distinct histories")
 ASSUMPTIONS = ["unicodedata.category as tabulated in Tables.lean (ASCII + 13 probes; generators draw only from these)",
                "IRIs are Python str without lone surrogates",
@@ -70,7 +74,7 @@ LOCALS = ["x", "y1", "_z", "1a", "-d", "a.b", "a.", "é", "%20x", "(p)", "", "b/
 STRICT_HEAD = {"1a": "1", "٣x": "٣", "%20x": "%20"}
 PREFIX_POOL = ["a", "b", "c", "_a", "_b", "", "ns1", "ns2", "a1", "b1", "default1", "é", "x.y", "A", "default", "_a1",
                "p_a", "p_b", "pp_a"]
-DOC_LOCALS = ["x", "y1", "b", "s", "o2", "q"]
+DOC_LOCALS = ["x", "y1", "b", "s", "o2", "q", "y.", "x"]
 SPECIAL_IRIS = [XMLNS + "a" + XMLNS + "b", "http://e.org/a b", "http://e.org/<x>", "", "/ab/-", "abc", XMLNS, XMLNS + "lang",
                 "http://e.org/a/b/c", "http://e.org/", "urn:x:y:z"]
 
@@ -99,10 +103,15 @@ def _doc_triples(rng, nss, counter, n):
     return ts
 
 
+def _foreign_fields(rng):
+    return {"via": rng.choice(["ctor", "setter"]), "fstore": rng.choice(["memory", "simple"]),
+            "own": rng.choice(["memory", "simple"])}
+
+
 def gen_collision_case(rng):
     """a `_x` prefix (not writable in Turtle: the serializer renames it `p_x`) together with real
     `p_x` (and sometimes `pp_x`) prefixes for other namespaces; terms of either namespace first"""
-    cfg = _w(rng, [("memory", 3), ("simple", 4), ("dataset", 3)])
+    cfg = _w(rng, [("memory", 3), ("simple", 4), ("dataset", 3), ("foreign", 2)])
     u = rng.choice(["_v", "_a", "_9", "_"])
     pre = [u, "p" + u] + (["pp" + u] if rng.random() < 0.4 else []) + (["v"] if rng.random() < 0.3 else [])
     fam = list(rng.choice(NS_FAMILIES[:2] + NS_FAMILIES[3:]))  # not the XML-namespace family, see gen_case
@@ -121,14 +130,17 @@ def gen_collision_case(rng):
             ops.append(["qname", 0, rng.choice(vn) + "x"])
         else:
             ops.append(["bind", 0, rng.choice(pre), rng.choice(vn), True, rng.random() < 0.5])
-    return {"cfg": cfg, "bn": rng.choice(["none", "none", "core"]), "bn1": "rdflib" if cfg == "dataset" else "none",
+    case = {"cfg": cfg, "bn": rng.choice(["none", "none", "core"]), "bn1": "rdflib" if cfg == "dataset" else "none",
             "vp": pre, "vn": vn, "ops": ops}
+    if cfg == "foreign":
+        case.update(_foreign_fields(rng))
+    return case
 
 
 def gen_case(rng, tier, i):
     if rng.random() < 0.12:
         return gen_collision_case(rng)
-    cfg = _w(rng, [("memory", 4), ("simple", 3), ("dataset", 3)])
+    cfg = _w(rng, [("memory", 4), ("simple", 3), ("dataset", 3), ("foreign", 2)])
     bn = _w(rng, [("none", 55), ("core", 30), ("rdflib", 15)])
     two = rng.random() < 0.35
     bn1 = "rdflib" if cfg == "dataset" else _w(rng, [("none", 6), ("core", 3), ("rdflib", 1)])
@@ -211,7 +223,10 @@ def gen_case(rng, tier, i):
             ops.append(["ser", mgr(), rng.choice(valid), rng.choice(valid), rng.choice(valid)])
         elif kind == "serdoc":
             ops.append(["serdoc", mgr(), rng.choice(["turtle", "turtle", "n3"]), _doc_triples(rng, absns, counter, rng.randint(1, 4))])
-    return {"cfg": cfg, "bn": bn, "bn1": bn1, "vp": vp, "vn": vn, "ops": ops}
+    case = {"cfg": cfg, "bn": bn, "bn1": bn1, "vp": vp, "vn": vn, "ops": ops}
+    if cfg == "foreign":
+        case.update(_foreign_fields(rng))
+    return case
 
 
 # ---------------------------------------------------------------- elementary steps shared by impl and model
@@ -235,6 +250,13 @@ def _term(x, kind):
 
 def doc_ctx(k):
     return URIRef("http://graphs.example/doc%d" % k)
+
+
+def doc_store_kind(case, m):
+    """kind of the store that holds the triples of a document written through manager m"""
+    if case["cfg"] == "foreign":
+        return case["own"] if m == 0 else case["fstore"]
+    return "simple" if case["cfg"] == "simple" else "memory"
 
 
 def doc_order(cfg, triples, k):
@@ -323,9 +345,13 @@ class Impl:
         self.cfg = case["cfg"]
         self.case = case
         self.k = 0
+        mk = lambda kind: Memory() if kind == "memory" else SimpleMemory()
         if self.cfg == "dataset":
             self.store = Memory()
             self.ds = Dataset(store=self.store)
+        elif self.cfg == "foreign":
+            self.store = mk(case["fstore"])  # the manager's store: the table the property talks about
+            self.own = mk(case["own"])       # the graph's own store: never bound to
         else:
             self.store = Memory() if self.cfg == "memory" else SimpleMemory()
         self.g = [None, None]
@@ -339,6 +365,14 @@ class Impl:
             else:
                 self.g[1] = self.ds.default_context
                 self.g[1].namespace_manager  # created here, with the default "rdflib" set
+        elif self.cfg == "foreign" and m == 0:
+            self.owner = Graph(store=self.store, bind_namespaces=bn)
+            nm = self.owner.namespace_manager
+            if self.case["via"] == "ctor":
+                self.g[0] = Graph(store=self.own, namespace_manager=nm)
+            else:
+                self.g[0] = Graph(store=self.own)
+                self.g[0].namespace_manager = nm
         else:
             self.g[m] = Graph(store=self.store, bind_namespaces=bn)
             self.g[m].namespace_manager
@@ -346,10 +380,11 @@ class Impl:
     def serdoc(self, op):
         _k, m, fmt, triples = op
         nm = self.g[m].namespace_manager
-        if self.cfg == "simple":
+        if doc_store_kind(self.case, m) == "simple":
             tmp = self.g[m]
         else:  # a fresh graph (fresh per-context set) on the same store, through the same manager
-            tmp = Graph(store=self.store, identifier=doc_ctx(self.k), namespace_manager=nm)
+            st = self.own if (self.cfg == "foreign" and m == 0) else self.store
+            tmp = Graph(store=st, identifier=doc_ctx(self.k), namespace_manager=nm)
         ts = [(URIRef(s_), URIRef(p_), _term(o_, kd)) for s_, p_, o_, kd in triples]
         for t in ts:
             tmp.add(t)
@@ -492,7 +527,7 @@ def _check_bij(im, case, k, viol):
 
 def _check_q(im, op, res, k, viol):
     kind = op[0]
-    now = {p: str(n) for p, n in im.store.namespaces()}
+    now = {p: str(n) for p, n in im.g[0].namespaces()}  # the graph's public listing
     if kind in ("cq", "cqs"):
         u = op[2]
         p, n, l = res
@@ -528,6 +563,8 @@ def run_impl(case):
     user = user_prefixes(case)
     obs, viol = [], []
     stats = {"ops": len(case["ops"]), "cfg_" + case["cfg"]: 1, "bn_" + case["bn"]: 1}
+    if case["cfg"] == "foreign":
+        stats["foreign_" + case["via"]] = 1
     rebound = False
     nontrivial = False
     for k, op in enumerate(steps(case)):
@@ -600,9 +637,10 @@ def model_lines(case):
             lines.append(f"ser {op[1]} {_e(op[2])} {_e(op[3])} {_e(op[4])}")
         elif k == "serdoc":
             qs = []
-            for s_, p_, o_, kd in doc_order(case["cfg"], op[3], idx + 1):
+            for s_, p_, o_, kd in doc_order(doc_store_kind(case, op[1]), op[3], idx + 1):
                 qs += [_e(s_), "0", _e(p_), "1"] + ([_e(o_), "0"] if kd == "u" else [])
-            lines.append(f"serdoc {op[1]} " + " ".join(qs))
+            fb = "0" if (case["cfg"] == "foreign" and op[1] == 0) else "1"  # getQName's fallback reads the graph's own store
+            lines.append(f"serdoc {op[1]} {fb} " + " ".join(qs))
         else:
             raise AssertionError(k)
     return lines
